@@ -200,6 +200,7 @@ def evaluate(case):
             pb = json.loads(md[b'spatialpandas'].decode('utf')).get('partition_bounds', {})
             files = [f for f in os.listdir(paths[j]) if f.startswith('part.') and f.endswith('.parquet')]
             nfiles += len(files)
+            file_rids = {}
             for c in gcols:
                 cols = pb.get(c)
                 if cols is None or sorted(cols) != sorted(BCOLS):
@@ -209,7 +210,9 @@ def evaluate(case):
                     meta_problem = ('malformed', f'column {c}: rows {sorted(cols["x0"])} for {len(files)} part files')
                     break
                 for i in range(len(files)):
-                    rids = read_table(os.path.join(paths[j], f'part.{i}.parquet'), columns=['rid']).column('rid').to_pylist()
+                    if i not in file_rids:
+                        file_rids[i] = read_table(os.path.join(paths[j], f'part.{i}.parquet'), columns=['rid']).column('rid').to_pylist()
+                    rids = file_rids[i]
                     exp = model.ref_total_bounds(geoms[c]['kind'], model.canon_elements([geoms[c]['elements'][r] for r in rids]))
                     got = tuple(float(cols[b][str(i)]) for b in BCOLS)
                     if not model.same_row(got, exp):
